@@ -103,11 +103,12 @@ pub fn audit(engine: &Engine) -> i32 {
                 canary: true,
                 clock: None,
                 pid: None,
+                reuse_config: false,
             },
         ),
         (
             "cli",
-            NodeSpec { kind: NodeKind::Cli { args: vec!["-o".into(), "gen".into(), "--report".into(), "src/a.lalrpop".into(), "src/sub/b.lalrpop".into()] }, cwd: String::new(), env: vec![], hashseed: 0, faults: vec![], leak: 0, canary: false, clock: None, pid: None },
+            NodeSpec { kind: NodeKind::Cli { args: vec!["-o".into(), "gen".into(), "--report".into(), "src/a.lalrpop".into(), "src/sub/b.lalrpop".into()] }, cwd: String::new(), env: vec![], hashseed: 0, faults: vec![], leak: 0, canary: false, clock: None, pid: None, reuse_config: false },
         ),
         (
             "api-process_file-faulted",
@@ -121,6 +122,7 @@ pub fn audit(engine: &Engine) -> i32 {
                 canary: false,
                 clock: None,
                 pid: None,
+                reuse_config: false,
             },
         ),
     ];
